@@ -3,7 +3,7 @@
    resolveDeepLA does), Gram/ValidatorK.v (boolean check of LALR(k) tables against an LR(0) item certificate). *)
 From Coq Require Import List ZArith Bool.
 From TM Require Import Gram.Cfg Gram.PTables Gram.Run Gram.Derive Gram.Validator Gram.Validator_proofs Gram.LRSound
-                       Gram.ValidatorK Gram.ValidatorK_proofs.
+                       Gram.ValidatorK Gram.ValidatorK_proofs Gram.ValidatorK_proofs2.
 Import ListNotations.
 Local Open Scope Z_scope.
 
@@ -31,11 +31,39 @@ Theorem C07_every_deep_answer_is_checked :
   forall t jst f n a more, all_ok n t jst a = true -> 0 <= deep_walk f t a more -> jst (deep_walk f t a more) = true.
 Proof. exact deep_ok. Qed.
 
-(* NOT proved (partial): the completeness half (every sentence is accepted, i.e. the rule chosen by the deep rows is
-   the one under which the rest of the input parses). It needs a k-token lookahead certificate; it is judged on
-   every sampled grammar by running the loop model on the real tables over sampled sentences and ALL short strings
-   against the chart recogniser. *)
+(* ---- completeness side ---- *)
+(* tables without LALR(k) rows (no cell in range refers to a deep row): the loop with deep-row walking IS C01's loop
+   on every input, so Validator.check (C01's full check, on the LALR(1) reading of the tables) gives the exact language *)
+Theorem C07_no_deep_rows_same_run :
+  forall g t rule_len rule_sym nstates finals nl ft ann,
+  check g (lalr1_machine t rule_len rule_sym) nstates finals nl ft ann = true ->
+  no_deep t nstates (vT g) = true ->
+  forall i, (i < ninputs g)%nat -> forall ws, toks_ok g ws -> forall fuel,
+  parse fuel (default_machine t rule_len rule_sym) finals i ws = parse fuel (lalr1_machine t rule_len rule_sym) finals i ws.
+Proof. exact parse_no_deep_same. Qed.
+
+Theorem C07_no_deep_rows_exact_language :
+  forall g t rule_len rule_sym nstates finals nl ft ann,
+  check g (lalr1_machine t rule_len rule_sym) nstates finals nl ft ann = true ->
+  no_deep t nstates (vT g) = true ->
+  forall i, (i < ninputs g)%nat -> forall ws, toks_ok g ws -> forall nt eoi,
+  nth_error (g_inputs g) i = Some (nt, eoi) ->
+  (exists fuel, fst (parse fuel (default_machine t rule_len rule_sym) finals i ws) = Accept) <-> sentence g nt eoi ws.
+Proof. exact parse_no_deep_exact. Qed.
+
+(* check_k is a soundness check only.  The naive claim
+     check_k ... = true -> sentence g nt eoi ws -> exists fuel, fst (parse fuel ...) = Accept
+   is FALSE: a table set whose every action is "error" passes check_k and rejects the sentence [a] of S -> a. *)
+Theorem C07_check_k_alone_not_complete_refuted :
+  exists g t rule_len rule_sym nstates finals ann i nt eoi ws,
+    check_k g t rule_len rule_sym nstates finals ann = true /\
+    nth_error (g_inputs g) i = Some (nt, eoi) /\ toks_ok g ws /\ sentence g nt eoi ws /\
+    forall fuel, fst (parse fuel (default_machine t rule_len rule_sym) finals i ws) <> Accept.
+Proof. exact check_k_alone_not_complete. Qed.
 
 Print Assumptions C07_lalr_k_parser_sound.
 Print Assumptions C07_lalr_k_parser_never_crashes.
 Print Assumptions C07_every_deep_answer_is_checked.
+Print Assumptions C07_no_deep_rows_same_run.
+Print Assumptions C07_no_deep_rows_exact_language.
+Print Assumptions C07_check_k_alone_not_complete_refuted.
